@@ -656,3 +656,28 @@ def _short_read_selfcheck() -> bool:
                     " async def f(self):\n  if await self._end() != b'\\r\\n':\n   raise ValueError\n")
     neg = ast.parse("class A:\n async def f(self):\n  if await self._content.readline() != b'\\r\\n':\n   raise ValueError\n  c = await self._content.read(1)\n  if c == b'x':\n   pass\n")
     return len(short_read_compares(pos.body[0])) == 1 and not short_read_compares(neg.body[0])
+
+
+# ---- timeout scopes ------------------------------------------------------------------------------------------------------------------------
+def timeout_budget(w, fn_node=None):
+    """The budget expression (text) of an `async with async_timeout.timeout(T)` / `timeout_at(D)` block, or None when `w` is no such block.
+    `timeout_at(D)`: D is followed through its single definition `<loop>.time() + T` (a deadline shared by several blocks) -> T."""
+    for it in getattr(w, "items", []):
+        ce = it.context_expr
+        if not isinstance(ce, ast.Call) or not ce.args:
+            continue
+        f = norm.raw(ce.func)
+        if f in ("async_timeout.timeout", "asyncio.timeout", "timeout"):
+            return norm.raw(ce.args[0])
+        if f in ("async_timeout.timeout_at", "asyncio.timeout_at", "timeout_at"):
+            d = ce.args[0]
+            if isinstance(d, ast.Name) and fn_node is not None:
+                vals = [v for _d, v in norm.fn_defs(fn_node).defs.get(d.id, []) if v is not None]
+                if len(vals) == 1:
+                    d = vals[0]
+            if isinstance(d, ast.BinOp) and isinstance(d.op, ast.Add):
+                for a, b in ((d.left, d.right), (d.right, d.left)):
+                    if isinstance(a, ast.Call) and norm.raw(a.func).endswith(".time"):
+                        return norm.raw(b)
+            return "deadline:" + norm.raw(ce.args[0])
+    return None
